@@ -67,14 +67,23 @@ def FUEL : Nat := 4000
 
 def handle (inp out : Sexp) : CaseResult :=
   match inp with
-  | .list [.atom "wrap", ps, .list [.atom "ref", .str cn, .atom ci], ts, .atom ns] =>
-    match decProgram ps, ci.toNat?, decTarget ts, ns.toNat? with
-    | some p, some ci, some t, some n =>
+  | .list [.atom "wrap", ps, .list [.atom "ref", .str cn, .atom ci], ts, .atom ns,
+      .list (.atom "usedin" :: usedIn), .list (.atom "bodyq" :: bodyQ)] =>
+    match decProgram ps, ci.toNat?, decTarget ts, ns.toNat?, out with
+    | some p, some ci, some t, some n, .list [.atom "result", out, .list (.atom "used" :: usedOut),
+        .list (.atom "listq" :: listQ)] =>
       let c : MemRef := ⟨cn, ci⟩
       let mOut := encProgram (wrapInLoop p c t n)
       let agree := mOut == out
       let premise := ci == 0 && labelFresh t p.body && counterFresh cn p.body
-      let bodyFinishes := (iterTrace p.body c FUEL n (zeroMem.set c (Int.ofNat n)))
+      -- the interpreter is only run for moderate n (boundary values 2^16 … u32::MAX are checked structurally
+      -- and against the model)
+      let bodyFinishes := if n ≤ 64 then iterTrace p.body c FUEL n (zeroMem.set c (Int.ofNat n)) else none
+      -- used-qubit cache of the result: ∅ for n = 0 (clone_without_body_instructions), the input's cache
+      -- for n = 1 (clone), the qubits of the re-added body instructions for n ≥ 2 (mod.rs:213-225, 238)
+      let mUsed : List Sexp := match n with | 0 => [] | 1 => usedIn | _ => bodyQ
+      let usedAgree := mUsed == usedOut
+      let cacheIsListing := usedOut == listQ
       match decProgram out with
       | none => { agree := false, specOk := false, nontrivial := false, tags := ["impl-output-undecodable"],
                   detail := s!"model={mOut} impl={out}" }
@@ -83,6 +92,21 @@ def handle (inp out : Sexp) : CaseResult :=
         -- behavioural clause: interpret the IMPLEMENTATION's body
         let (beh, btag) :=
           if n < 2 then (true, "n<2")
+          else if n > 64 then
+            -- boundary iteration counts: the counter must be initialised to exactly n, and the same body with
+            -- that literal replaced by 3 must behave as the 3-fold loop (the behaviour depends on n only
+            -- through the MOVE literal)
+            (match o.body with
+             | .move d v :: rest =>
+               let okInit := d == c && v == Int.ofNat n
+               if !premise then (okInit, "n-large-premise-violated")
+               else match iterTrace p.body c FUEL 3 (zeroMem.set c 3) with
+                 | none => (okInit, "n-large-body-does-not-finish")
+                 | some T3 =>
+                   (match run (.move c 3 :: rest) (16 * (T3.length + 4 * (p.body.length + 4)) + 100) 0 zeroMem [] with
+                    | .done mf tr => (okInit && tr == .move c 3 :: T3 && mf c == 0, "n-large-checked-via-3")
+                    | _ => (false, "n-large-impl-does-not-finish"))
+             | _ => (false, "n-large-no-move"))
           else if !premise then (true, "premise-violated")
           else match bodyFinishes with
             | none => (true, "body-does-not-finish")
@@ -108,10 +132,18 @@ def handle (inp out : Sexp) : CaseResult :=
           (if p.regions.isEmpty && p.body.isEmpty && !p.defs.isEmpty && p.defs.all (fun d => d.startsWith "DEFCAL")
            then "calibrations-only-program" else "not-calibrations-only")]
           ++ (if !st then ["STRUCTURE-FAIL"] else [])
-        { agree := agree, specOk := st && beh,
+          ++ (if !usedAgree then ["USED-CACHE-DISAGREE"] else [])
+          -- known finding C10/clone-without-body-resets-cache: reported by C10, only tagged here
+          ++ (if !cacheIsListing then ["cache-not-listing(C10-known)"] else ["cache-is-listing"])
+          ++ (if p.body.any (fun i => match i with | .jumpWhen _ r => r.name.startsWith "c1" | _ => false)
+              then ["nested-wrap"] else [])
+          ++ (if ci > 2 then ["idx-huge"] else [])
+        { agree := agree && usedAgree, specOk := st && beh,
           nontrivial := n ≥ 2 && btag == "ran" && !p.body.isEmpty,
           tags := ntags, detail := s!"model={mOut} impl={out}" }
-    | _, _, _, _ => .bad s!"undecodable input {inp}"
+    | _, _, _, _, .list [.atom "crash", .str msg] =>
+      { agree := false, specOk := false, nontrivial := true, tags := ["crash"], detail := msg }
+    | _, _, _, _, _ => .bad s!"undecodable input/output {inp} {out}"
   | _ => .bad s!"undecodable input {inp}"
 
 end QV.C33
